@@ -9,7 +9,10 @@ EXTENDS Eval
 
 FnV(n) == [k |-> "fn", name |-> n]
 TupV(s) == [k |-> "tup", items |-> s]
-Common == [f |-> FnV("f"), g |-> FnV("g"), t |-> TupV(<< IntV(10), IntV(20), FracV(5, 2) >>)]
+\* f, g functions; t a tuple; o an object with attributes p, q; m a mapping keyed by
+\* integers and tuples (the hosts of round 2: subscripts, lookups, calls)
+Common == [f |-> FnV("f"), g |-> FnV("g"), t |-> TupV(<< IntV(10), IntV(20), FracV(5, 2) >>),
+           o |-> [k |-> "obj", name |-> "o1"], m |-> [k |-> "map", name |-> "m1"]]
 Envs == <<
   [a |-> FracV(2, 1),  b |-> FracV(3, 1),  c |-> FracV(5, 1)] @@ Common,
   [a |-> IntV(3),      b |-> IntV(-3),     c |-> FracV(1, 2)] @@ Common,
